@@ -325,12 +325,78 @@ end
 def enumValidJ (vs : List Json) (x : Json) : Bool := vs.any (fun v => jsonEq x v)
 def constValidJ (v : Json) (x : Json) : Bool := jsonEq x v
 
-/-- `literalSchema` on any member.  An array / object member becomes `Literal(v)` all the same; its `Values` then hold
-    an uncomparable Go value, `Contains` is never true: a literal without values. -/
-def litOfJ (v : Json) : R :=
-  match v.toPrim? with
-  | some p => litOf p
-  | none => .ok (.lit [])
+/-! ### Go values: what `encoding/json` decodes a member / an instance into, and how types/literal.go compares them
+
+A `Json` term doubles as the decoded Go value held in an `any`: `null` = nil, `bool` = bool, `num` = float64 (the value),
+`str` = string, `arr` = []any (never a nil slice), `obj` = map[string]any. -/
+
+/-- `reflect.Value.Comparable()` of a decoded value: false for []any / map[string]any. -/
+def Json.goComparable : Json → Bool
+  | .arr _ => false
+  | .obj _ => false
+  | _ => true
+
+mutual
+/-- `reflect.DeepEqual` on decoded values: different dynamic types are unequal; nil, bool, float64, string by `==`;
+    []any: the same length and the items deeply equal in order; map[string]any: the same length and every key of the
+    FIRST map present in the second with a deeply equal value (`deepValueEqual`, case Map: `range v1.MapKeys()`). -/
+def deepEqual : Json → Json → Bool
+  | .null, y => (match y with | .null => true | _ => false)
+  | .bool a, y => (match y with | .bool b => a == b | _ => false)
+  | .num a, y => (match y with | .num b => a == b | _ => false)
+  | .str a, y => (match y with | .str b => a == b | _ => false)
+  | .arr xs, y => (match y with | .arr ys => deepEqualL xs ys | _ => false)
+  | .obj fs, y => (match y with | .obj gs => fs.size == gs.size && deepFields fs gs | _ => false)
+def deepEqualL : JsonList → JsonList → Bool
+  | .nil, ys => (match ys with | .nil => true | _ => false)
+  | .cons x xs, ys => (match ys with | .cons y ys => deepEqual x y && deepEqualL xs ys | .nil => false)
+def deepFields : JsonFields → JsonFields → Bool
+  | .nil, _ => true
+  | .cons k v fs, gs => (match gs.find k with | some w => deepEqual v w | none => false) && deepFields fs gs
+end
+
+/-- `a == b` on two `any` values.  `none` = the run-time panic "comparing uncomparable type": both operands hold the
+    same uncomparable dynamic type.  Different dynamic types are unequal without a panic. -/
+def ifaceEq : Json → Json → Option Bool
+  | .arr _, .arr _ => none
+  | .obj _, .obj _ => none
+  | .null, .null => some true
+  | .bool a, .bool b => some (a == b)
+  | .num a, .num b => some (a == b)
+  | .str a, .str b => some (a == b)
+  | _, _ => some false
+
+/-- `literalEqual(a, b)` of types/literal.go (after e48d4b1): two valid (non-nil) values of which at least one is not
+    comparable are compared with `reflect.DeepEqual`, everything else with `==`. -/
+def literalEqual (a b : Json) : Option Bool :=
+  if !a.isNull && !b.isNull && (!a.goComparable || !b.goComparable) then some (deepEqual a b) else ifaceEq a b
+
+/-- `slices.ContainsFunc(values, func(x) bool { return eq(x, v) })`: members in order, the first equal one ends the
+    search, a panic propagates. -/
+def containsBy (eq : Json → Json → Option Bool) : List Json → Json → Option Bool
+  | [], _ => some false
+  | m :: ms, v =>
+      match eq m v with
+      | none => none
+      | some true => some true
+      | some false => containsBy eq ms v
+
+/-- the schema `literalSchema` builds for one const / enum member. -/
+inductive LitZ
+  | nil                    -- types.Nil()
+  | lit (v : Json)         -- types.Literal(v): `Values = [v]`, v the decoded Go value (scalar, []any or map[string]any)
+
+/-- `literalSchema`. -/
+def literalSchemaJ : Json → LitZ
+  | .null => .nil
+  | v => .lit v
+
+/-- the schemas `convertConst` / `convertEnum` return. -/
+inductive CE
+  | one (l : LitZ)             -- convertConst
+  | enum (strs : List Str)     -- all members strings: types.Enum(strs…)
+  | union (ls : List LitZ)     -- types.Union of the members' literal schemas, in the listed order, repeats included
+  | any                        -- empty enum: Unknown()
 
 def allStrsJ : List Json → Option (List Str)
   | [] => some []
@@ -338,29 +404,83 @@ def allStrsJ : List Json → Option (List Str)
   | _ => none
 
 /-- `convertConst`. -/
-def fromConstJ (v : Json) : R := litOfJ v
+def fromConstJ (v : Json) : CE := .one (literalSchemaJ v)
 
-/-- `convertEnum`: an all-string list is `Enum(strings…)`, anything else the `Union` of the members' literal schemas —
-    one branch per listed member, in the listed order, repeats included. -/
-def fromEnumJ : List Json → R
-  | [] => .ok .any
+/-- `convertEnum`. -/
+def fromEnumJ : List Json → CE
+  | [] => .any
   | v :: vs =>
       match allStrsJ (v :: vs) with
-      | some strs => .ok (.enum strs)
-      | none =>
-          match seqR ((v :: vs).map litOfJ) with
-          | .error e => .error e
-          | .ok ss => .ok (.union (slistOf ss))
+      | some strs => .enum strs
+      | none => .union ((v :: vs).map literalSchemaJ)
 
-def sameComposite : Json → Json → Bool
-  | .arr _, .arr _ => true
-  | .obj _, .obj _ => true
-  | _, _ => false
+/-- Parse verdict of one literal schema, `eq` being `Contains`' comparison (`none` = ParseAny panics).  Nil accepts nil
+    only; `ParsePrimitive` rejects a nil input of a non-nilable Literal before `validateLiteral` / `Contains` runs. -/
+def LitZ.parseBy (eq : Json → Json → Option Bool) : LitZ → Json → Option Bool
+  | .nil, x => some x.isNull
+  | .lit v, x => if x.isNull then some false else containsBy eq [v] x
 
-/-- `ParseAny` panics ("comparing uncomparable type"): `slices.Contains(Values, input)` meets a member and an input of
-    the same uncomparable dynamic type ([]any / map[string]any).  No earlier union branch can have accepted such an
-    input.  An all-string enum never panics. -/
-def parsePanicsJ (vs : List Json) (x : Json) : Bool := (allStrsJ vs).isNone && vs.any (fun v => sameComposite x v)
+/-- union members are tried in the listed order; the first success ends the search, a panic propagates. -/
+def unionParseBy (eq : Json → Json → Option Bool) : List LitZ → Json → Option Bool
+  | [], _ => some false
+  | l :: ls, x =>
+      match l.parseBy eq x with
+      | none => none
+      | some true => some true
+      | some false => unionParseBy eq ls x
+
+/-- ParseAny verdict (`some true` accepted, `some false` rejected, `none` panic) of a const / enum schema on a decoded
+    instance.  A Union rejects nil before its members are asked (finding nullable-union). -/
+def CE.parseBy (eq : Json → Json → Option Bool) : CE → Json → Option Bool
+  | .one l, x => l.parseBy eq x
+  | .enum strs, x => some (match x with | .str s => strs.contains s | _ => false)
+  | .union ls, x => if x.isNull then some false else unionParseBy eq ls x
+  | .any, _ => some true
+
+/-- the code as it stands. -/
+def CE.parse (c : CE) (x : Json) : Option Bool := c.parseBy literalEqual x
+
+/-- the code before e48d4b1 (`slices.Contains`, i.e. `==`). -/
+def CE.legacyParse (c : CE) (x : Json) : Option Bool := c.parseBy ifaceEq x
+
+/-- the `S` term of the same schema, where every literal member is a scalar (how `fromJS` sees these documents). -/
+def LitZ.toS? : LitZ → Option S
+  | .nil => some .nil
+  | .lit v => v.toPrim?.map (fun p => .lit [p])
+
+def litsToS? : List LitZ → Option (List S)
+  | [] => some []
+  | l :: ls => match l.toS?, litsToS? ls with
+      | some s, some ss => some (s :: ss)
+      | _, _ => none
+
+def CE.toS? : CE → Option S
+  | .one l => l.toS?
+  | .enum strs => some (.enum strs)
+  | .union ls => (litsToS? ls).map (fun ss => .union (slistOf ss))
+  | .any => some .any
+
+/-- objects of a JSON value have unique keys (a Go map has; `Json.obj` is an association list). -/
+def uniqList : List Str → Bool
+  | [] => true
+  | k :: ks => !ks.contains k && uniqList ks
+
+def JsonFields.keys : JsonFields → List Str
+  | .nil => []
+  | .cons k _ fs => k :: fs.keys
+
+mutual
+def uniqKeys : Json → Bool
+  | .arr xs => uniqKeysL xs
+  | .obj fs => uniqList fs.keys && uniqKeysF fs
+  | _ => true
+def uniqKeysL : JsonList → Bool
+  | .nil => true
+  | .cons x xs => uniqKeys x && uniqKeysL xs
+def uniqKeysF : JsonFields → Bool
+  | .nil => true
+  | .cons _ v fs => uniqKeys v && uniqKeysF fs
+end
 
 /-! ## plain decoding: every JSON number reaches the schema as a float64 -/
 
